@@ -145,7 +145,7 @@ type caseSpec struct {
 	Template  string `json:"template"` // focus | twice | roundtrip | random
 	Layout    string `json:"layout"`   // plain | linked-wt
 	WtCfgExt  bool   `json:"worktree_config_ext"`
-	HooksPath string `json:"hooks_path"` // default | abs | abs-space | rel | tilde
+	HooksPath string `json:"hooks_path"`                 // default | abs | abs-space | rel | tilde
 	HPStore   string `json:"hooks_path_store,omitempty"` // local | home | wtcfg
 	FocusHook string `json:"focus_hook,omitempty"`
 	FocusCls  string `json:"focus_class,omitempty"`
@@ -198,8 +198,18 @@ func blankPadding(r *rand.Rand, n int) string {
 	}
 }
 
+// variant >= 0 fixes which LFS text a class is built from (even: current, odd: historical
+// number variant/2), so that one round of focus cases exercises both; -1 = random.
+var textVariant = -1
+
 func anyLFSText(r *rand.Rand, t string, onlyOld bool) string {
 	h := hookHistorical(t)
+	if v := textVariant; v >= 0 {
+		if !onlyOld && v%2 == 0 {
+			return hookCurrent(t)
+		}
+		return h[(v/2)%len(h)]
+	}
 	if !onlyOld && r.Intn(2) == 0 {
 		return hookCurrent(t)
 	}
@@ -241,9 +251,12 @@ func ragged(r *rand.Rand, s string) string {
 }
 
 func mutantHook(r *rand.Rand, t string) string {
-	s := hookCurrent(t)
+	s := anyLFSText(r, t, false)
 	switch r.Intn(6) {
 	case 0:
+		if !strings.Contains(s, "exit 2") {
+			return s + " \\\n  && true\n"
+		}
 		return strings.Replace(s, "exit 2", "exit 3", 1) + "\n"
 	case 1:
 		return s + " || true\n"
@@ -252,7 +265,7 @@ func mutantHook(r *rand.Rand, t string) string {
 	case 3:
 		return strings.Replace(s, "#!/bin/sh\n", "#!/bin/bash\n", 1) + "\n"
 	case 4:
-		return strings.Replace(s, "git lfs "+t+" \"$@\"", "git lfs "+t+" \"$@\" </dev/null", 1) + "\n"
+		return s + " </dev/null\n"
 	default:
 		return strings.Replace(s, "\ngit lfs", "\n\ngit lfs", 1) + "\n" // extra blank line inside
 	}
@@ -265,6 +278,12 @@ func otherType(r *rand.Rand, t string) string {
 			return o
 		}
 	}
+}
+
+func makeHookV(r *rand.Rand, t, class string, variant int) hookPre {
+	textVariant = variant
+	defer func() { textVariant = -1 }()
+	return makeHook(r, t, class)
 }
 
 func makeHook(r *rand.Rand, t, class string) hookPre {
@@ -558,7 +577,7 @@ func genCase(seed int64, idx int) caseSpec {
 		for _, t := range hookTypes {
 			switch {
 			case t == cs.FocusHook:
-				cs.Hooks[t] = makeHook(r, t, cs.FocusCls)
+				cs.Hooks[t] = makeHookV(r, t, cs.FocusCls, slot%4+round+int(seed%2))
 				before = false
 			case before && strict:
 				cs.Hooks[t] = makeHook(r, t, pick(r, passableClasses))
